@@ -76,56 +76,71 @@ def run(cmd, **kw):
     return subprocess.run(cmd, stdout=subprocess.PIPE, stderr=subprocess.STDOUT, text=True, **kw)
 
 
+def one(job):
+    """suite first; for a survivor the mapped checks are run until the first one alarms."""
+    path, i, old, new, procs, every = job
+    scratch = tempfile.mkdtemp(prefix="pendmc-automut-", dir="/var/tmp")
+    rec = {"file": path, "line": i, "before": old.strip(), "after": new.strip()}
+    try:
+        subprocess.check_call(["rsync", "-a", "--exclude", ".git", "--exclude", "rust/target", "--exclude", "__pycache__",
+                               "/repo/", scratch + "/"])
+        p = os.path.join(scratch, path)
+        ls = open(p).read().split("\n")
+        assert ls[i - 1] == old
+        ls[i - 1] = new
+        open(p, "w").write("\n".join(ls))
+        imp = run(["/venv/bin/python", "-c", "import pendulum"], env=dict(os.environ, PYTHONPATH=scratch + "/src"))
+        if imp.returncode:
+            rec["suite"] = "does-not-import"
+        else:
+            b = run([os.path.join(VERIF, "selftest", "wt-tools", "run_baseline.sh"), scratch])
+            rec["suite"] = "survived" if b.returncode == 0 else "killed"
+        if rec["suite"] == "survived":
+            alarms, infra = [], []
+            for prop in MAP[path]:
+                q = run([os.path.join(VERIF, "check"), prop, "--tier", "quick"],
+                        env=dict(os.environ, PENDMC_REPO=scratch, PENDMC_PROCS=procs))
+                if q.returncode == 1:
+                    alarms.append(prop)
+                    if not every:
+                        break
+                elif q.returncode != 0:
+                    infra.append(prop)
+            rec["alarms"], rec["infra"] = alarms, infra
+    finally:
+        shutil.rmtree(scratch, ignore_errors=True)
+    return rec
+
+
 def main():
+    from concurrent.futures import ThreadPoolExecutor
     ap = argparse.ArgumentParser()
     ap.add_argument("files", nargs="+")
     ap.add_argument("--max", type=int, default=10 ** 6)
-    ap.add_argument("--procs", default="8")
+    ap.add_argument("--procs", default="4", help="worker processes per check run")
+    ap.add_argument("--jobs", type=int, default=4, help="mutants examined concurrently")
+    ap.add_argument("--every", action="store_true", help="run every mapped check instead of stopping at the first alarm")
     a = ap.parse_args()
     done = set()
     if os.path.exists(OUT):
         for ln in open(OUT):
             d = json.loads(ln)
             done.add((d["file"], d["line"], d["after"]))
-    n = 0
+    jobs = []
     for spec in a.files:
         path, _, rng = spec.partition(":")
         first, last = (int(x) for x in rng.split("-")) if rng else (0, 0)
         for i, old, new in mutants(path, first, last):
-            if (path, i, new.strip()) in done or n >= a.max:
+            if (path, i, new.strip()) in done or len(jobs) >= a.max:
                 continue
-            n += 1
-            scratch = tempfile.mkdtemp(prefix="pendmc-automut-", dir="/var/tmp")
-            try:
-                subprocess.check_call(["rsync", "-a", "--exclude", ".git", "--exclude", "rust/target", "--exclude", "__pycache__",
-                                       "/repo/", scratch + "/"])
-                p = os.path.join(scratch, path)
-                ls = open(p).read().split("\n")
-                assert ls[i - 1] == old
-                ls[i - 1] = new
-                open(p, "w").write("\n".join(ls))
-                rec = {"file": path, "line": i, "before": old.strip(), "after": new.strip()}
-                imp = run(["/venv/bin/python", "-c", "import pendulum"], env=dict(os.environ, PYTHONPATH=scratch + "/src"))
-                if imp.returncode:
-                    rec["suite"] = "does-not-import"
-                else:
-                    b = run(["/tmp/wt-tools/run_baseline.sh", scratch])
-                    rec["suite"] = "survived" if b.returncode == 0 else "killed"
-                if rec["suite"] == "survived":
-                    alarms, infra = [], []
-                    for prop in MAP[path]:
-                        q = run([os.path.join(VERIF, "check"), prop, "--tier", "quick"],
-                                env=dict(os.environ, PENDMC_REPO=scratch, PENDMC_PROCS=a.procs))
-                        if q.returncode == 1:
-                            alarms.append(prop)
-                        elif q.returncode != 0:
-                            infra.append(prop)
-                    rec["alarms"], rec["infra"] = alarms, infra
-                with open(OUT, "a") as f:
-                    f.write(json.dumps(rec) + "\n")
-                print(f"{path}:{i} [{rec['suite']}] {rec.get('alarms', '')} | {old.strip()[:60]}  =>  {new.strip()[:60]}", flush=True)
-            finally:
-                shutil.rmtree(scratch, ignore_errors=True)
+            jobs.append((path, i, old, new, a.procs, a.every))
+    print(f"{len(jobs)} mutants", flush=True)
+    with ThreadPoolExecutor(a.jobs) as ex:
+        for rec in ex.map(one, jobs):
+            with open(OUT, "a") as f:
+                f.write(json.dumps(rec) + "\n")
+            print(f"{rec['file']}:{rec['line']} [{rec['suite']}] {rec.get('alarms', '')} | {rec['before'][:60]}  =>  {rec['after'][:60]}",
+                  flush=True)
     return 0
 
 
